@@ -37,11 +37,27 @@ Theorem C01_self_is_the_passed_object : forall ks ds a, arg_ok ks ds "self" a = 
 Proof. exact self_is_the_passed_object. Qed.
 Print Assumptions C01_self_is_the_passed_object.
 
+(* an output argument of a checked call (intent out / inout): the caller's variable holds what the C function stored through
+   the argument it was given; it was given the variable's own storage, or a C_BOOL local that is copied back after the call *)
+Theorem C01_checked_outputs_reach_the_caller : forall f stored before r c,
+  fcall_ok f = true -> mem r (fc_outputs f) = true -> In (c, r) (fc_args f) -> passes_value c = true ->
+  caller_sees f stored before r = stored r.
+Proof. exact checked_outputs_reach_the_caller. Qed.
+Print Assumptions C01_checked_outputs_reach_the_caller.
+
+(* without the copy back the caller keeps the old value, and the call is not accepted: the rule is needed *)
+Example C01_copy_back_is_needed :
+  let f := {| fc_name := "flip"; fc_dummies := ["flag"]; fc_kinds := [("flag", DLog)]; fc_params := ["flag"];
+              fc_args := [(FBool, "flag")]; fc_outputs := ["flag"]; fc_copyback := [] |} in
+  fcall_ok f = false /\ caller_sees f (fun _ => 1) (fun _ => 0) "flag" = 0.
+Proof. exact copy_back_is_needed. Qed.
+
 (* non-vacuity *)
 Definition ex_f : fcall :=
   {| fc_name := "fn0>c_fn0_bufferify"; fc_dummies := ["a0"; "a1"; "a3"; "a4"]; fc_kinds := [("a0", DObj); ("a1", DNum); ("a3", DChar); ("a4", DArr)];
      fc_params := ["a0"; "a1"; "a3"; "La3"; "a4"; "na4"; "DSHF_rv"];
-     fc_args := [(FCapsule, "a0"); (FDirect, "a1"); (FDirect, "a3"); (FLenTrim, "a3"); (FDirect, "a4"); (FSize, "a4"); (FResult, "DSHF_rv")] |}.
+     fc_args := [(FCapsule, "a0"); (FDirect, "a1"); (FDirect, "a3"); (FLenTrim, "a3"); (FDirect, "a4"); (FSize, "a4"); (FResult, "DSHF_rv")];
+     fc_outputs := ["a4"]; fc_copyback := [] |}.
 Example C01_example : fcall_ok ex_f = true /\
   actuals ex_f [("a0", VObj 2); ("a1", VNum 7); ("a3", VChar [104; 105; 32; 32]%N); ("a4", VArr [1; 2; 3]%Z)]
   = [ACap 2; ANum 7; AText [104; 105; 32; 32]%N; ANum 2; AArr [1; 2; 3]%Z; ANum 3; AOther].
